@@ -22,7 +22,7 @@ import traceback
 
 
 class CaseResult:
-    __slots__ = ("failures", "nontrivial", "tags", "evals", "sub_nontrivial", "counts")
+    __slots__ = ("failures", "nontrivial", "tags", "evals", "sub_nontrivial", "counts", "sample")
 
     def __init__(self):
         self.failures = []  # [(bucket, detail)]
@@ -31,6 +31,7 @@ class CaseResult:
         self.evals = 1  # inputs judged inside this case (enumerating cases set it)
         self.sub_nontrivial = 0  # distinct non-trivial inputs enumerated inside this case
         self.counts = {}  # bulk counters
+        self.sample = None  # explicit sample (enumerating cases: a few of the inputs they judged)
 
     def fail(self, bucket, detail=""):
         detail = str(detail)
@@ -242,6 +243,8 @@ class Collector:
             bump(r["counters"], t)
         for k, v in res.counts.items():
             bump(r["counters"], k, v)
+        if res.sample is not None and len(r["samples"]) < self.max_samples and r["evaluations"] % 3 == 0:
+            r["samples"].append(res.sample)
         if res.sub_nontrivial:
             h = case_hash(case)
             if h not in self._sub_seen:
